@@ -39,6 +39,10 @@ type Config struct {
 	AllocBudget int64 // bytes a path may request through make/append (0 = unchecked)
 	Merge       map[string]bool
 	Tracing     bool
+	// AbstractConv: float<->int conversions and Round/Floor/Ceil/Trunc are
+	// uninterpreted functions (sound for unsat; used where the solver cannot
+	// carry the FP conversions, e.g. the TWKB scaling pipeline).
+	AbstractConv bool
 }
 
 // State of one interpreter instance (one worker).
